@@ -93,13 +93,18 @@ pub fn scenarios(tier: Tier) -> Vec<Scenario> {
         }
         Tier::Thorough => {
             for ms in multisets(ROLES.len(), 2) {
-                add(&ms, 1, 3);
-                add(&ms, 16, 3);
+                // the producer whose action returns Effect::Action brings pool jobs: bound 2
+                let b = if ms.contains(&14) { 2 } else { 3 };
+                add(&ms, 1, b);
+                add(&ms, 16, b);
             }
             for ms in multisets(ROLES.len(), 3) {
                 // roles that bring their own threads (channeled delivery, pool jobs) or can end
                 // in a known hang make the tree wide: two or more of them -> bound 1
-                let heavy = ms.iter().filter(|r| matches!(**r, 3 | 4 | 6 | 7 | 8 | 10 | 13 | 14)).count();
+                if ms.contains(&14) {
+                    continue; // covered in pairs
+                }
+                let heavy = ms.iter().filter(|r| matches!(**r, 3 | 4 | 6 | 7 | 8 | 10 | 13)).count();
                 add(&ms, 1, if heavy >= 2 { 1 } else { 2 });
             }
             for ms in multisets(ROLES.len(), 4) {
